@@ -10,7 +10,7 @@ input (translation validation).  `Proofs/RelaxCheck.lean` proves that a `true` v
 * `factorsInPatternb adm F`: the factors have no non-zero outside the admitted pattern;
 * `luExactb A F`           : `(I+L)(D⁻¹+U) = A` entrywise (exact-inverse clause);
 * `admPattern kind k A`    : the admitted pattern recomputed independently: pattern of `A` (`ilu0`), level of fill
-  `≤ k` with amgcl's level rule `lev = max(lev_ik, lev_kj) + 1` (`iluk`), pattern of `A^(k+1)` (`ilup`), everything (`full`);
+  `≤ k` with amgcl's level rule `lev = max(lev_ik, lev_kj) + 1` (`iluk`), pattern of `A^(k+1)` (`ilup`); `ilut` has no a-priori pattern;
 * `leastSquaresRowsb A M`  : for every row `i` the normal equations of `min ‖e_i − m A‖₂` over `m` supported on the
   pattern of row `i` of `A` hold exactly for `m = M_i`.
 -/
@@ -101,12 +101,14 @@ def patLevel (A : CRS K) (kfill : Nat) : Nat → Nat → Bool :=
   let lev := fillLevels A kfill
   fun i j => ((lev.getD i #[]).getD j none).isSome
 
-/-- the admitted pattern of a factorisation kind -/
-def admPattern (kind : String) (k : Nat) (A : CRS K) : Option (Nat → Nat → Bool) :=
-  if kind = "ilu0" then some (patOf A)
-  else if kind = "iluk" then some (patLevel A k)
-  else if kind = "ilup" then some (patPower A k)
-  else if kind = "full" then some (fun _ _ => true)
+/-- the admitted pattern of a factorisation kind, as a pair: the positions on which `(LU)_ij = a_ij` is claimed and
+the positions where factor entries may be non-zero.  `ilut` (threshold dropping: no pattern is fixed in advance)
+claims no position and allows every position; only its exactness on tridiagonal / arrow matrices is checked. -/
+def admPattern (kind : String) (k : Nat) (A : CRS K) : Option ((Nat → Nat → Bool) × (Nat → Nat → Bool)) :=
+  if kind = "ilu0" then some (patOf A, patOf A)
+  else if kind = "iluk" then some (patLevel A k, patLevel A k)
+  else if kind = "ilup" then some (patPower A k, patPower A k)
+  else if kind = "ilut" then some (fun _ _ => false, fun _ _ => true)
   else none
 
 def samePatternb (A M : CRS K) : Bool :=
